@@ -11,12 +11,12 @@ import json, os, re, shutil, subprocess, sys
 VERIF = '/verif'
 WT = '/tmp/score/wt'
 RELATED = {
-    'C02': ['C02', 'C04', 'C01', 'C03'],
+    'C02': ['C02', 'C12', 'C04', 'C01', 'C03'],
     'C01': ['C01', 'C05', 'C04', 'C18', 'C03'], 'C03': ['C03', 'C04', 'C12', 'C01'], 'C04': ['C04', 'C05', 'C20'], 'C05': ['C05', 'C01', 'C13', 'C12', 'C04', 'C03'], 'C11': ['C11'],
     'C12': ['C12'], 'C13': ['C13'], 'C14': ['C14', 'C03'], 'C15': ['C15', 'C12', 'C04'], 'C16': ['C16'], 'C17': ['C17', 'C20', 'C15'],
     'C18': ['C18', 'C01', 'C20'], 'C19': ['C19'], 'C20': ['C20', 'C18'],
 }
-THOROUGH = {'C17a-3'}
+THOROUGH = {'C17a-3', 'C02e-2'}
 import re
 
 
